@@ -4,6 +4,7 @@ import (
 	"fmt"
 	"strconv"
 	"strings"
+	"sync"
 	"time"
 
 	"pgregory.net/rapid"
@@ -180,6 +181,40 @@ func genEnum(t *rapid.T, label string, vals []int, explicit bool) int {
 	return rapid.SampledFrom(vals).Draw(t, label)
 }
 
+var (
+	transCache = map[string][]Date{}
+	transMu    sync.Mutex
+)
+
+func addDays(d Date, k int) Date {
+	u := time.Date(d.Y, time.Month(d.M), d.D, 12, 0, 0, 0, time.UTC).AddDate(0, 0, k)
+	return Date{u.Year(), int(u.Month()), u.Day()}
+}
+
+// TransitionNights lists the civil dates D of 2022-2025 such that local midnight of D and of D+1 both exist exactly once in
+// loc and are not 24 hours apart (the clock changes in between).
+func TransitionNights(loc *time.Location) []Date {
+	transMu.Lock()
+	defer transMu.Unlock()
+	if d, ok := transCache[loc.String()]; ok {
+		return d
+	}
+	var out []Date
+	for d := time.Date(2022, 1, 1, 12, 0, 0, 0, time.UTC); d.Year() < 2026; d = d.AddDate(0, 0, 1) {
+		e := d.AddDate(0, 0, 1)
+		if !MidnightOK(d.Year(), int(d.Month()), d.Day(), loc) || !MidnightOK(e.Year(), int(e.Month()), e.Day(), loc) {
+			continue
+		}
+		t0 := time.Date(d.Year(), d.Month(), d.Day(), 0, 0, 0, 0, loc)
+		t1 := time.Date(e.Year(), e.Month(), e.Day(), 0, 0, 0, 0, loc)
+		if t1.Sub(t0) != 24*time.Hour {
+			out = append(out, Date{d.Year(), int(d.Month()), d.Day()})
+		}
+	}
+	transCache[loc.String()] = out
+	return out
+}
+
 var gapCache = map[string][]Date{}
 
 // GapDays lists the civil dates 2010-2025 on which loc has no local midnight.
@@ -202,6 +237,7 @@ func GapDays(loc *time.Location) []Date {
 type GenInfo struct {
 	GapDates         int
 	MovedDates       int
+	DSTEdges         int
 	InterleavedTrips bool
 	OutOfOrderTrip   bool
 	MultiAgency      bool
@@ -236,6 +272,7 @@ func GenFeed(t *rapid.T, o GenOpts) (*Feed, GenInfo) {
 	if o.GapDays {
 		gaps = GapDays(loc)
 	}
+	trans := TransitionNights(loc)
 	genDate := func(label string) (Date, bool) {
 		if len(gaps) > 0 && rapid.IntRange(0, 2).Draw(t, label+"Gap") == 0 {
 			info.GapDates++
@@ -357,6 +394,7 @@ func GenFeed(t *rapid.T, o GenOpts) (*Feed, GenInfo) {
 			kind = i
 		}
 		var start, end Date
+		var edgeEx *Date
 		if kind == 0 || kind == 2 {
 			c := CalendarRow{ServiceID: id}
 			for d := range c.Days {
@@ -374,6 +412,24 @@ func GenFeed(t *rapid.T, o GenOpts) (*Feed, GenInfo) {
 			if c.End.Text() < c.Start.Text() {
 				c.Start, c.End = c.End, c.Start
 			}
+			if kind == 2 && len(trans) > 0 && rapid.IntRange(0, 3).Draw(t, "dstEdge") == 0 {
+				// the calendar range ends on the eve of (or starts on the morrow of) a night with a clock change in the agency
+				// zone, and the only exception outside the range is the day across that night: 23 or 25 hours from the boundary
+				d0 := trans[rapid.IntRange(0, len(trans)-1).Draw(t, "dstEdgeDay")]
+				d1 := addDays(d0, 1)
+				span := rapid.SampledFrom([]int{0, 1, 6, 40}).Draw(t, "dstEdgeSpan")
+				if rapid.Bool().Draw(t, "dstEdgeAfter") {
+					c.Start, c.End, edgeEx = addDays(d0, -span), d0, &d1
+				} else {
+					c.Start, c.End, edgeEx = d1, addDays(d1, span), &d0
+				}
+				for _, x := range []Date{c.Start, c.End} {
+					if !MidnightOK(x.Y, x.M, x.D, loc) {
+						info.MovedDates++ // the caller excludes such cases
+					}
+				}
+				info.DSTEdges++
+			}
 			start, end = c.Start, c.End
 			f.Calendar = append(f.Calendar, c)
 		}
@@ -388,7 +444,9 @@ func GenFeed(t *rapid.T, o GenOpts) (*Feed, GenInfo) {
 				if mv {
 					info.MovedDates++
 				}
-				if kind == 2 && rapid.Bool().Draw(t, "exInside") && end.Y > 0 {
+				if edgeEx != nil && j == 0 {
+					dt = *edgeEx
+				} else if kind == 2 && end.Y > 0 && (edgeEx != nil || rapid.Bool().Draw(t, "exInside")) {
 					dt = start // a date inside the range (its first day)
 					if rapid.Bool().Draw(t, "exAtEnd") {
 						dt = end
@@ -400,6 +458,9 @@ func GenFeed(t *rapid.T, o GenOpts) (*Feed, GenInfo) {
 				}
 				if j == n-1 && !valid && kind == 1 {
 					ex = rapid.SampledFrom([]string{"1", "2"}).Draw(t, "exTypeForced") // a dates-only service needs one valid row to exist
+				}
+				if edgeEx != nil && j == 0 && ex != "1" && ex != "2" {
+					ex = "2"
 				}
 				if ex == "1" || ex == "2" {
 					valid = true
